@@ -95,6 +95,7 @@ def worker(args):
                 def cand(role, detail, m, p):
                     if role in seen: return
                     m2 = pr.refine(icheck.friendly_tiers(P, kk), m)
+                    if not pr.refined_ok: m2 = pr.refine(icheck.depth_tiers(P, kk), m)        # exists only at call depth > 0: replayed behind local calls
                     if pr.refined_ok: seen.add(role)
                     cands.append(dict(role=role, detail=detail, opcode=opc, profile=profile, model=icheck.model_dict(m2, P), friendly=pr.refined_ok))
                 for p in paths:
